@@ -325,9 +325,16 @@ func TestVerifC26(t *testing.T) {
 		ps = append(ps, pending{kind: 1, in: []byte{byte(x)}, class: "short"})
 	}
 	for _, v := range []byte{1, 2} {
-		for x := 0; x < 256; x += 1 + r.Intn(3) {
+		for x := r.Intn(6); x < 256; x += 1 + r.Intn(11) {
 			ps = append(ps, pending{kind: 1, in: []byte{v, byte(x)}, class: "short"})
 			ps = append(ps, pending{kind: 1, in: []byte{v, byte(x), byte(r.U64())}, class: "short"})
+		}
+	}
+	if vfTier() == "thorough" { // all two-byte strings with a supported version byte
+		for _, v := range []byte{1, 2} {
+			for x := 0; x < 256; x++ {
+				ps = append(ps, pending{kind: 1, in: []byte{v, byte(x)}, class: "short"})
+			}
 		}
 	}
 
@@ -368,6 +375,10 @@ func TestVerifC26(t *testing.T) {
 			obs = cSome(rs.Out)
 		}
 		key := fmt.Sprintf("%d:%x", p.kind, p.in)
+		if len(p.in) > 2500 { // Go-side oracle only (the Coq term would be > 100 kB)
+			classes[p.class+"/oracle-only"]++
+			continue
+		}
 		if seen[key] {
 			continue
 		}
